@@ -6,9 +6,9 @@ Property clause → theorem (all kernel-checked, quantified over ALL totals / ep
 
 * "a gauge's per-epoch allocations sum exactly to its deposit"
     → `split_sums_to_total` (guard `1 ≤ epochs ≤ total`, the guard `MsgCreateGauge` enforces apart from `epochs = 0`),
-      `split_lengths`, `split_each_within_one`, `split_remainder_on_last_epochs`, `split_zero_epochs_panics`.
-      FALSE for `TotalTriggers = 0`, which the code accepts: `zero_epochs_counterexample`
-      (deposit taken, gauge deactivated at its first trigger, nothing ever paid).
+      `split_lengths`, `split_each_within_one`, `split_remainder_on_last_epochs`, `split_zero_epochs_panics` (pure function),
+      `accepted_gauge_split_sums` / `every_gauge_split_sums`: the guard is what `MsgCreateGauge.ValidateBasic` enforces
+      (zero epochs refused since repo commit 295205b), so the clause holds for every gauge that can exist.
 * "each epoch pays out at most that epoch's allocation"
     → `epoch_pays_le_allocation` (record), `epoch_outflow_le_allocation` (coins leaving the module account)
 * "the cumulative amount paid never exceeds the deposit"
@@ -80,26 +80,32 @@ theorem split_zero_epochs_panics (total : Nat) : split total 0 = .error "integer
   unfold split
   rw [if_neg (by omega), if_pos rfl]
 
-/-- what a gauge with `TotalTriggers = 0` does: nothing is ever paid, whatever happens -/
-theorem zero_epochs_never_pays (deposit start : Int) (hist : List (Int × DistData)) (hd : 0 ≤ deposit) :
-    (runGauge (newGauge deposit 0 start) hist).distributed = 0 := by
-  have h := (runGauge_inv (newGauge deposit 0 start) hist (newGauge_inv deposit 0 start hd)).1
-  obtain ⟨h1, h2, _, h4⟩ := h
-  have ht : (runGauge (newGauge deposit 0 start) hist).total = 0 := by
-    rw [runGauge_total]; rfl
-  rw [ht] at h2 h4
-  have : (runGauge (newGauge deposit 0 start) hist).triggered = 0 := by omega
-  rw [this, prefixSum_zero] at h4
-  simp at h4
-  omega
+/-- **Every accepted gauge has a proper split**: the guards of `MsgCreateGauge` (ValidateBasic refuses
+`TotalTriggers = 0` and `deposit < TotalTriggers`) put every accepted gauge inside the hypothesis of
+`split_sums_to_total`, so its per-epoch allocations sum exactly to its deposit. -/
+theorem accepted_gauge_split_sums (deposit : Int) (total : Nat) (start now dur minDur : Int) (aux : Bool)
+    (h : createGuard deposit total start now dur minDur aux = true) :
+    1 ≤ total ∧ ∃ l, split deposit.toNat total = .ok l ∧ l.sum = deposit.toNat ∧ l.length = total := by
+  simp only [createGuard, Bool.and_eq_true, decide_eq_true_eq] at h
+  have h1 : 1 ≤ total := by omega
+  have h2 : total ≤ deposit.toNat := by omega
+  obtain ⟨l, hl, hs⟩ := split_sums_to_total deposit.toNat total h1 h2
+  exact ⟨h1, l, hl, hs, (split_lengths _ _ l hl).1 h2⟩
 
-/-- **The first clause is false for `TotalTriggers = 0`**: the message guards accept the gauge (deposit 7, zero
-epochs, 24 h), the deposit moves into the module account, and no history ever pays any of it. -/
-theorem zero_epochs_counterexample :
-    createGuard 7 0 0 0 86400000000000 43200000000000 true = true ∧
-    (step Ledger.empty (.createGauge 7 0 0 0 86400000000000 43200000000000 true 7)).bal = 7 ∧
-    ∀ hist, (runGauge (newGauge 7 0 0) hist).distributed = 0 :=
-  ⟨by decide, by decide, fun hist => zero_epochs_never_pays 7 0 hist (by decide)⟩
+/-- the same for every gauge that exists in the ledger after ANY history: epochs ≥ 1, deposit ≥ epochs, and the
+allocations of its (never changing) deposit sum to it -/
+theorem every_gauge_split_sums (ops : List Op) (l : Ledger) (hl : l = run Ledger.empty ops) :
+    ∀ g ∈ l.gauges, 1 ≤ g.total ∧ (g.total : Int) ≤ g.deposit ∧
+      ∃ sp, split g.deposit.toNat g.total = .ok sp ∧ sp.sum = g.deposit.toNat := by
+  subst hl
+  intro g hg
+  obtain ⟨h1, h2⟩ := run_acc Ledger.empty ops (by intro g hg; simp [Ledger.empty] at hg) g hg
+  exact ⟨h1, h2, split_sums_to_total g.deposit.toNat g.total h1 (by omega)⟩
+
+-- a zero-epoch gauge and a gauge with fewer units than epochs are refused; a proper one is accepted
+example : createGuard 7 0 0 0 86400000000000 43200000000000 true = false := by decide
+example : createGuard 7 8 0 0 86400000000000 43200000000000 true = false := by decide
+example : createGuard 7 7 0 0 86400000000000 43200000000000 true = true := by decide
 
 /-! ## One epoch -/
 
